@@ -73,6 +73,10 @@ func loadModule(name string) (starlark.StringDict, error) {
 	case "lib":
 		// a module with functions, compiled and executed once per process and
 		// then shared (frozen) by every thread that loads it
+		if freshLib {
+			// a pristine copy: compiled code that no earlier execution has touched
+			return starlark.ExecFileOptions(threadOpts, &starlark.Thread{Name: "lib"}, "lib.star", libSrc, nil)
+		}
 		libOnce.Do(func() {
 			th := &starlark.Thread{Name: "lib"}
 			libGlobals, libErr = starlark.ExecFileOptions(threadOpts, th, "lib.star", libSrc, nil)
@@ -97,7 +101,18 @@ def mk(n):
         return x + n
     return add
 add5 = mk(5)
+def head(xs):
+    return xs[0].name
+def walk(v):
+    return v[0][1][2]
+def pick(d, k):
+    return d[k] + d[k + 1]
 `
+
+// freshLib makes load("lib") compile and execute a new copy of the module, so
+// that the execution shares no compiled code with any earlier one (the
+// baseline of the history check).
+var freshLib bool
 
 var (
 	libOnce    sync.Once
@@ -426,8 +441,18 @@ func checkMapOrder(src string, pairs bool, st *fw.Stats, report func(k kase, wha
 // (c) history
 
 func checkHistory(src string, st *fw.Stats, report func(k kase, what string)) {
+	// baseline: with pristine compiled code. (With the shared, cached module a
+	// state left behind by an earlier execution could already be part of the
+	// first run and perpetuate itself.)
+	freshLib = true
 	first := execute(src, nil)
+	freshLib = false
 	st.Evals++
+	if now := execute(src, nil); !now.equal(first) {
+		st.Evals++
+		report(kase{Kind: "history", Src: src, B: -1}, fmt.Sprintf("transcript with compiled code shared with earlier executions differs from the transcript with pristine compiled code: %s vs %s", now, first))
+		return
+	}
 	for bi, b := range historyPrograms {
 		execute(b, nil)
 		again := execute(src, nil)
@@ -622,6 +647,13 @@ func replay(c *fw.Ctx, raw json.RawMessage) []fw.Viol {
 	case "hash":
 		checkHashes(k.Src, st, report)
 	case "history":
+		if k.B < 0 {
+			// the state the program met was left by the programs that ran before it in this
+			// worker: recreate a superset of it (every order-exposing program once)
+			for _, p := range orderPrograms() {
+				execute(p, nil)
+			}
+		}
 		checkHistory(k.Src, st, report)
 	case "threads":
 		checkThreads(c, k.Src, k.N, 2, st, report)
